@@ -299,6 +299,8 @@ func runReplset(w *World) {
 	}
 	// invariants, re-read after every accepted transport write
 	winners := map[uint64]string{}
+	var acked []*ReqRec // require-ack locks answered SUCCED
+	lostToLongerLog := map[[16]byte]string{}
 	majorityFor := map[uint64]string{} // committed number -> host a majority of the members has committed it for
 	var noteCommit func(c uint64, host string, idx int)
 	cfgCommit := uint64(0)
@@ -376,6 +378,22 @@ func runReplset(w *World) {
 				m.leaderSpell++
 			}
 			if isLd && !m.wasLd {
+				// F68 seen from the election: a live member holds an acknowledged lock, its log is, by file
+				// index and offset, no longer than the new leader's, and the new leader does not hold the
+				// lock: the two logs belong to different histories and the longer one won
+				for _, r := range acked {
+					if holdsLock(m.node.sl, r) {
+						continue
+					}
+					for _, o := range ms {
+						if o != m && live(o) && o.node.sl.aof != nil && m.node.sl.aof != nil && holdsLock(o.node.sl, r) {
+							oi, oo, li, lo := o.node.sl.aof.aofFileIndex, o.node.sl.aof.aofFileOffset, m.node.sl.aof.aofFileIndex, m.node.sl.aof.aofFileOffset
+							if li > oi || (li == oi && lo >= oo) {
+								lostToLongerLog[r.Id] = fmt.Sprintf("when %s became leader its log stood at %d/%d and lacked the lock, the log of %s stood at %d/%d and had it", m.host, li, lo, o.host, oi, oo)
+							}
+						}
+					}
+				}
 				// a new leader stands on a commit majority: more than half of all members have committed
 				// its number for it (counted from what each member was seen to commit, whatever the
 				// member's own idea of a majority is)
@@ -475,7 +493,6 @@ func runReplset(w *World) {
 	}
 	defer func() { ssync.OnAnyRelease = nil }()
 
-	var acked []*ReqRec
 	ackSeen := 0
 	storm := false
 	ssched.SpawnOn(0, "rs-driver", func() {
@@ -838,7 +855,9 @@ func runReplset(w *World) {
 						}
 					}
 				}
-				if !held && l.killedAsLeader {
+				if why, ok := lostToLongerLog[r.Id]; !held && ok && !l.killedAsLeader {
+					w.violate("C12", "quorum_acked_lock_lost_to_longer_log_of_another_history", "lock %s was answered SUCCED after a quorum had acknowledged it, was never released and its term has not passed, but the leader %s (node n%d) does not hold it: %s (positions are compared by file index and offset, finding F68)", r, l.host, l.node.id, why)
+				} else if !held && l.killedAsLeader {
 					// a leader that was killed comes back with the unreplicated tail of its own log: by
 					// file index and offset that log is the longest, so it wins the next election
 					// although it belongs to an abandoned history (finding F68)
@@ -900,4 +919,27 @@ func arbiterCount(ms []RSMember) (arbiters, data int) {
 		}
 	}
 	return
+}
+
+// holdsLock: the node's lock table has the request's LockId as a holder of its key.
+func holdsLock(sl *SLock, r *ReqRec) bool {
+	if sl == nil || int(r.Op.Db) >= len(sl.dbs) {
+		return false
+	}
+	db := sl.dbs[r.Op.Db]
+	if db == nil {
+		return false
+	}
+	kb, lb := keyBytes(r.Op.Key), lidBytes(r.Op.Lid)
+	for _, m := range allManagers(db) {
+		if m.refCount == 0xffffffff || m.lockKey != kb {
+			continue
+		}
+		for _, hl := range holdersOf(m) {
+			if hl.command != nil && hl.command.LockId == lb {
+				return true
+			}
+		}
+	}
+	return false
 }
